@@ -297,3 +297,59 @@ func verif_C06_bdat_step() {
 	}
 	verifAssert(verifNthReplyCode(vc.out, 6) == 250, "C06.step-command-mode-after")
 }
+
+// verif_C06_data2: TWO DATA transactions on one connection under the same
+// limit: the limit applies to every transaction, not only to the first one.
+func verif_C06_data2() {
+	N := nondetInt(1, 6)
+	lmtp := nondetBool()
+	msg1 := nondetBytesN(1)
+	msg2 := nondetBytesN(2)
+	for _, ch := range append(append([]byte{}, msg1...), msg2...) {
+		assume(ch != '.' && ch != '\r' && ch != '\n')
+	}
+	m1, m2 := 3, 4
+	var gots [][]byte
+	var errs []error
+	be := &vbackend{}
+	be.dataFn = func(_ *vsession, r io.Reader) error {
+		b, e := verifReadAll(r, 3)
+		gots = append(gots, b)
+		errs = append(errs, e)
+		if e == io.EOF {
+			return nil
+		}
+		return e
+	}
+	s, _ := verifServer(be)
+	s.MaxMessageBytes = int64(N)
+	s.LMTP = lmtp
+	hello := "EHLO c\r\n"
+	if lmtp {
+		hello = "LHLO c\r\n"
+	}
+	in := []byte(hello + "MAIL FROM:<s@v>\r\nRCPT TO:<r@v>\r\nDATA\r\n")
+	in = append(in, msg1...)
+	in = append(in, "\r\n.\r\nMAIL FROM:<s2@v>\r\nRCPT TO:<r2@v>\r\nDATA\r\n"...)
+	in = append(in, msg2...)
+	in = append(in, "\r\n.\r\nNOOP\r\n"...)
+	vc, _, _ := verifServe(s, in, io.EOF)
+	reps, wf := verifParseReplies(vc.out)
+	verifObserve("c06d2", N, lmtp, wf, len(reps), len(gots))
+	verifAssert(wf && len(reps) == 11 && len(gots) == 2, "C06.two-transactions-shape")
+	if !wf || len(reps) != 11 || len(gots) != 2 {
+		return
+	}
+	check := func(i, m int, final vreply, tag string) {
+		verifAssert(len(gots[i]) <= N, "C06.never-more-than-N-"+tag)
+		if m <= N {
+			verifAssert(errs[i] == io.EOF && final.code == 250 && len(gots[i]) == m, "C06.fitting-message-accepted-"+tag)
+		} else {
+			verifAssert(errs[i] != io.EOF && final.code == 552, "C06.oversize-refused-"+tag)
+		}
+	}
+	check(0, m1, reps[5], "first")
+	check(1, m2, reps[9], "second")
+	verifAssert(reps[10].code == 250, "C06.two-transactions-command-mode")
+	verifReach("C06.data2-end")
+}
